@@ -9,6 +9,7 @@ from __future__ import annotations
 
 import importlib
 import re
+import sys
 import typing as t
 
 from .model import AnalysisError, FuncInfo, Model
@@ -31,6 +32,8 @@ def _resolve(name: str) -> t.Optional[type]:
     mod, _, attr = name.rpartition('.')
     if not mod:
         mod = 'builtins'
+    if mod.split('.')[0] not in sys.stdlib_module_names:
+        return None        # only the interpreter's own library is consulted; repository code is never imported
     try:
         obj = getattr(importlib.import_module(mod), attr)
     except Exception:       # noqa: BLE001
